@@ -155,7 +155,15 @@ impl<'a> IntoIterator for &'a BytesExpr {
 fn fixed_byte(input: &str, digits: usize, radix: u32) -> LexResult<'_, u8> {
     let (digits, rest) = take(input, digits)?;
     match u8::from_str_radix(digits, radix) {
-        Ok(b) => Ok((b, rest)),
+        // `from_str_radix` also accepts a leading `+` sign, which is not a digit.
+        Ok(b) if digits.chars().all(|c| c.is_digit(radix)) => Ok((b, rest)),
+        Ok(_) => Err((
+            LexErrorKind::ParseInt {
+                err: u8::from_str_radix("+", radix).unwrap_err(),
+                radix,
+            },
+            digits,
+        )),
         Err(err) => Err((LexErrorKind::ParseInt { err, radix }, digits)),
     }
 }
